@@ -2,7 +2,7 @@
  * Same ghost ostream as c05_wire.c: insertions are TOKENS with byte lengths over one byte counter with a SYMBOLIC capacity (the
  * configured maximum response size); an insertion that does not fit is cut and fails that ostream object; flush() hands the bytes
  * buffered so far to the transport and clears the buffer.
- * Scenario: NW writes of symbolic sizes 1..3, after each of which the handler may flush, then ends().
+ * Scenario: NW writes of symbolic sizes 0..3 (a write of no bytes must emit nothing: a zero-size chunk IS the end of the body), after each of which the handler may flush, then ends().
  * Asserted: what reaches the transport is, in order, for each write: <hex size> CRLF <the caller's bytes> CRLF, and finally
  * "0" CRLF CRLF -- or, if some piece did not fit, the stream does NOT end successfully after it (an exception is raised by the
  * write that was cut or by ends()) and nothing written after the cut is sent; a cut chunk is never followed by a successful end.    */
@@ -62,7 +62,7 @@ int main(void) {
   the_buf = stream + OFF_ResponseStream_buf; *(u8**)(stream + OFF_ResponseStream_transport) = transport_obj;
   VP_SET(u64, cap, "cap"); __CPROVER_assume(cap <= 40);
   static u8 data[NW][4]; u64 sz[NW]; u8 fl[NW]; int thrown = 0; int ended = 0; int cut_before_end;
-  for (int w = 0; w < NW; w++) { VP_SET(u64, sz[w], "size"); VP_SET(u8, fl[w], "flush"); __CPROVER_assume(sz[w] >= 1 && sz[w] <= 3 && fl[w] <= 1); }
+  for (int w = 0; w < NW; w++) { VP_SET(u64, sz[w], "size"); VP_SET(u8, fl[w], "flush"); __CPROVER_assume(sz[w] <= 3 && fl[w] <= 1); }
   for (int w = 0; w < NW; w++) if (!thrown) {
     u64 r = _ZN8Pistache4Http14ResponseStream5writeEPKcl(stream, data[w], sz[w]);
     if (vp_take_exception()) thrown = 1; else __CPROVER_assert(r == sz[w], "write reports the chunk size");
@@ -76,7 +76,8 @@ int main(void) {
     __CPROVER_assert(!any_cut, "a stream that ended successfully lost nothing");
     int k = 0;
 #define NEXT(cond, msg) do { __CPROVER_assert(k < ntok && toks[k].sent && !toks[k].cut && (cond), msg); k++; } while (0)
-    for (int w = 0; w < NW; w++) {
+    for (int i = 0; i < MAXTOK; i++) if (i < ntok) __CPROVER_assert(!(toks[i].kind == T_HEX && toks[i].a == 0), "a write of zero bytes emits no chunk (a zero-size chunk would end the body before the data that follows)");
+    for (int w = 0; w < NW; w++) { if (sz[w] == 0) continue;
       NEXT(toks[k].kind == T_HEX && toks[k].a == sz[w], "chunk header: the size of the data written, in hex");
       NEXT(is_crlf(&toks[k]), "CRLF after the chunk size");
       NEXT(toks[k].kind == T_WRITE && toks[k].a == (u64)data[w] && toks[k].b == sz[w], "chunk data: exactly the caller's bytes");
